@@ -157,6 +157,11 @@ def run_property(mod, tier, seed):
                         # the clause was decided False on the concrete effect trace of this path; the model only has to
                         # witness that the path is feasible
                         status, how = "refuted", "clause is False on this path's effect trace; path feasibility witnessed by a model of the bounded instance"
+            if status == "undecided" and ob.get("smt2_path_condition"):
+                r2 = solve.check_text(name + "[path condition]", ob["smt2_path_condition"], z3_ms, cvc5_ms)
+                if r2["status"] == "refuted":
+                    status, model = "refuted", r2["model"]
+                    how = "clause is False on this path (decided on the concrete effect trace / call structure); the quantifier-free path condition is satisfiable"
             if status == "undecided":
                 pr.undecided.append(name + " " + json.dumps(res["backends"]))
                 continue
